@@ -95,7 +95,7 @@ class RealHistory:
     def __init__(self, o, r, tag):
         self.o, self.r, self.tag = o, r, tag
         self.b = r.core[0][0]
-        self.db = None
+        self.db, self.dbi = None, None
         self.fname = f"h{tag}.h5"
         self.nmerge = 0
         self.shadow = {}     # group name -> dict(c, n, label, ac, an, p, k)   (the oracle's own record)
@@ -109,9 +109,15 @@ class RealHistory:
         kind = op[0]
         try:
             if kind == "open":
-                self.db = Database(self.fname, "w")
-                self.db.open()
-                self.db.writeInputsToDB(self.o.cs)
+                self.dbi = self.o.getInterface("database")
+                if self.dbi is not None:
+                    # through the database interface (what a run does): the routes that load by label go through it
+                    self.dbi.initDB(fName=self.fname)
+                    self.db = self.dbi.database
+                else:
+                    self.db = Database(self.fname, "w")
+                    self.db.open()
+                    self.db.writeInputsToDB(self.o.cs)
                 return "ok"
             if kind == "set":
                 _, c, n, p, k = op
@@ -134,22 +140,67 @@ class RealHistory:
                              {"ops": self.trace}, observed=nm)
                 self.shadow[nm] = dict(c=c, n=n, label=label, ac=c, an=n, p=p, k=k)
                 return "ok"
-            if kind == "load":
+            if kind == "has":
+                # Database.hasTimeStep(cycle, node, statePointName): one snapshot per (cycle, node, LABEL)
                 _, c, n, label = op
+                got = bool(self.db.hasTimeStep(c, n, label) if label else self.db.hasTimeStep(c, n))
+                if got != (gname(c, n, label) in self.shadow):
+                    ctx.fail("hasTimeStep-per-label", "a snapshot is reported present exactly if that (cycle, node, label) was written",
+                             {"ops": self.trace}, observed=got, expected=not got)
+                return tf(got)
+            if kind == "load":
+                # every public route that takes a label must return THAT snapshot: Database.load, DatabaseInterface.loadState,
+                # Operator.loadState, a read-only Database on the closed file, db.loadOperator on the closed file
+                _, c, n, label = op[:4]
+                route = op[4] if len(op) > 4 else "db"
+                if self.closed and route in ("db", "dbi", "op"):
+                    route = "readonly"
+                if not self.closed and route in ("readonly", "loadOperator"):
+                    route = "db"
+                if route in ("dbi", "op") and self.dbi is None:
+                    route = "db"
                 nm = gname(c, n, label)
+                ctx.count(f"load route: {route}" + (" (labelled)" if label else ""))
                 try:
                     with common.quiet():
-                        r2 = self.db.load(c, n, statePointName=label or None, cs=self.o.cs, bp=self.r.blueprints,
-                                          allowMissing=True)
-                except Exception:  # noqa
+                        if route == "db":
+                            r2 = self.db.load(c, n, statePointName=label or None, cs=self.o.cs, bp=self.r.blueprints,
+                                              allowMissing=True)
+                        elif route in ("dbi", "op"):
+                            try:
+                                if route == "dbi":
+                                    self.dbi.loadState(c, n, timeStepName=label)
+                                else:
+                                    self.o.loadState(c, n, label)
+                                r2 = self.o.r
+                            finally:
+                                self.o.reattach(self.r, self.o.cs)      # the history goes on with its own reactor
+                            if r2 is self.r:
+                                raise RuntimeError("loadState did not attach a loaded reactor")
+                        elif route == "readonly":
+                            with Database(self.fname, "r") as d2:
+                                if bool(d2.hasTimeStep(c, n, label) if label else d2.hasTimeStep(c, n)) != (nm in self.shadow):
+                                    ctx.fail("hasTimeStep-per-label", "a snapshot is reported present exactly if that (cycle, node, label) "
+                                             "was written", {"ops": self.trace, "route": route}, observed=nm)
+                                r2 = d2.load(c, n, statePointName=label or None, cs=self.o.cs, bp=self.r.blueprints, allowMissing=True)
+                        else:
+                            from armi.bookkeeping.db import loadOperator
+                            r2 = loadOperator(self.fname, c, n, statePointName=label or None, allowMissing=True).r
+                except Exception as e:  # noqa
                     if nm in self.shadow:
-                        ctx.fail("load-of-written-snapshot-fails", "every written snapshot loads", {"ops": self.trace}, observed=nm)
+                        ctx.fail("load-of-written-snapshot-fails", "every written snapshot loads (through every route that takes a label)",
+                                 {"ops": self.trace, "route": route}, observed=[nm, repr(e)[:200]])
+                    if not self.closed and self.db.h5db is None:
+                        self.broken = True     # the failed load closed the database under the history: stop this history
                     return "reject"
                 got = (int(r2.p.cycle), int(r2.p.timeNode), int(r2.core[0][0].p.power), int(r2.core.p.keff))
                 sh = self.shadow.get(nm)
                 if sh is None or got != (sh["c"], sh["n"], sh["p"], sh["k"]):
-                    ctx.fail("load-returns-state-at-write", "loading a snapshot returns the state as of that write, whatever happened later",
-                             {"ops": self.trace}, observed=got, expected=sh)
+                    other = [k for k, v in self.shadow.items() if k != nm and got == (v["c"], v["n"], v["p"], v["k"])]
+                    ctx.fail("load-returns-state-at-write" if not other or not label else "load-labelled-snapshot-returns-another-snapshot",
+                             "loading a snapshot (cycle, node, label) returns the state as of THAT write, whatever happened later and "
+                             "whatever other snapshots the same node has", {"ops": self.trace, "route": route, "snapshot": nm,
+                                                                           "state_of": other}, observed=got, expected=sh)
                 return f"{got[0]} {got[1]} [[{BLOCK},{got[2]}],[{CORE},{got[3]}]]"
             if kind == "steps":
                 got = list(self.db.genTimeSteps())
@@ -184,6 +235,24 @@ class RealHistory:
                     ctx.fail("history-default-when-unset", "an unset parameter reads as its default in a history, at every step listed",
                              {"ops": self.trace}, observed=sorted(dict(h["flux"]).items()), expected=[(k, 0.0) for k in h[par].keys()])
                 return "[" + ",".join(f"({k[0]},{k[1]}):{v}" for k, v in got) + "]"
+            if kind == "histlabel":
+                # a history over explicitly named steps, one of them a LABELLED snapshot (c, n, label)
+                _, who, c, n, label = op
+                obj, par = (self.b, "power") if who == BLOCK else (self.r.core, "keff")
+                nm = gname(c, n, label)
+                try:
+                    h = self.db.getHistory(obj, [par], [(c, n, label)] if label else [(c, n)])
+                except KeyError:
+                    if nm in self.shadow:
+                        ctx.fail("history-of-written-labelled-step-raises", "a history over written steps is answered", {"ops": self.trace}, observed=nm)
+                    return "reject"
+                sh = self.shadow.get(nm)
+                got = h[par].get((c, n))
+                want = None if sh is None else (sh["p"] if who == BLOCK else sh["k"])
+                if sh is not None and (sh["ac"], sh["an"]) == (c, n) and (got is None or int(got) != want):
+                    ctx.fail("history-labelled-step-value", "a history over a labelled step returns the value of THAT snapshot",
+                             {"ops": self.trace, "snapshot": nm}, observed=got, expected=want)
+                return "_" if got is None else str(int(got))
             if kind == "merge":
                 _, sc, sn = op
                 self.nmerge += 1
@@ -277,6 +346,10 @@ def op_request(op):
         return f"write {op[1] or '-'}"
     if k == "load":
         return f"load {op[1]} {op[2]} {op[3] or '-'}"
+    if k == "has":
+        return f"has {op[1]} {op[2]} {op[3] or '-'}"
+    if k == "histlabel":
+        return f"histlabel {op[1]} {op[2]} {op[3]} {op[4] or '-'}"
     if k == "steps":
         return "steps"
     if k == "history":
@@ -292,7 +365,26 @@ def op_request(op):
     raise common.Infra(str(op))
 
 
+def _labelled_routes():
+    """A node with an unlabelled AND labelled snapshots of DIFFERENT states (as cNNnMM / cNNnMMEOL of every completed run), a node
+    with ONLY a labelled snapshot; every (cycle, node, label) through every route that takes a label, before and after close."""
+    ops = [("open",), ("set", 0, 0, 1, 1), ("write", ""), ("set", 0, 1, 2, 2), ("write", ""), ("set", 0, 1, 5, 6), ("write", "EOL"),
+           ("set", 0, 1, 7, 8), ("write", "error"), ("set", 0, 2, 9, 10), ("write", "x1"), ("set", 1, 0, 11, 12)]
+    for route in ("db", "dbi", "op"):
+        for (c, n, lab) in ((0, 1, ""), (0, 1, "EOL"), (0, 1, "error"), (0, 2, "x1"), (0, 2, ""), (0, 0, "EOL"), (0, 0, "")):
+            ops.append(("load", c, n, lab, route))
+    for (c, n, lab) in ((0, 1, ""), (0, 1, "EOL"), (0, 1, "error"), (0, 1, "x1"), (0, 2, "x1"), (0, 2, ""), (0, 0, "EOL")):
+        ops.append(("has", c, n, lab))
+        ops.append(("histlabel", BLOCK if (n + len(lab)) % 2 else CORE, c, n, lab))
+    ops += [("steps",), ("close", True), ("file",)]
+    for route in ("readonly", "loadOperator"):
+        for (c, n, lab) in ((0, 1, ""), (0, 1, "EOL"), (0, 1, "error"), (0, 2, "x1"), (0, 2, "")):
+            ops.append(("load", c, n, lab, route))
+    return ops
+
+
 FIXED = [
+    _labelled_routes(),
     # (former F13, repaired) stop step absent from the source, later steps present: only the earlier steps are copied
     [("open",), ("set", 0, 0, 1, 1), ("write", ""), ("set", 0, 2, 2, 2), ("write", ""), ("set", 1, 0, 3, 3), ("write", ""),
      ("merge", 0, 1), ("merge", 0, 2), ("merge", 1, 0), ("merge", 2, 0), ("steps",), ("close", True), ("file",)],
@@ -328,7 +420,7 @@ FIXED = [
 def gen_history(rng):
     ops = [("open",)]
     big = rng.random() < 0.15
-    written = []
+    written, labelled = [], []
     c, n = 0, 0
     val = 0
     for _ in range(rng.randint(6, 22)):
@@ -349,12 +441,25 @@ def gen_history(rng):
             ops.append(("write", label))
             if label == "":
                 written.append((c, n))
+            else:
+                labelled.append((c, n, label))
         elif x < 0.62:
             if written and rng.random() < 0.8:
                 cc, nn = rng.choice(written)
             else:
                 cc, nn = rng.randint(0, 3), rng.randint(0, 3)
-            ops.append(("load", cc, nn, rng.choice(["", "", "", "EOL", "error"])))
+            lab = rng.choice(["", "", "", "EOL", "error", "x1"])
+            if labelled and rng.random() < 0.45:      # a labelled snapshot that exists (its node may also have an unlabelled one)
+                cc, nn, lab = rng.choice(labelled)
+                if rng.random() < 0.3:
+                    lab = ""
+            x3 = rng.random()
+            if x3 < 0.7:
+                ops.append(("load", cc, nn, lab, rng.choice(["db", "dbi", "op", "dbi", "op"])))
+            elif x3 < 0.85:
+                ops.append(("has", cc, nn, lab))
+            else:
+                ops.append(("histlabel", rng.choice([BLOCK, CORE]), cc, nn, lab))
         elif x < 0.7:
             ops.append(("steps",))
         elif x < 0.82:
@@ -377,10 +482,15 @@ def gen_history(rng):
             ops.append(("split", [list(k) for k in keep]))
             mn = min(k[0] for k in keep)
             written = [(k[0] - mn, k[1]) for k in keep]
+            labelled = []
             # keep the reactor's clock ahead of every kept step so that later writes are fresh
         else:
             ops.append(("file",))
     ops += [("steps",), ("close", rng.random() < 0.5), ("file",)]
+    # the closed file: a read-only Database and db.loadOperator, by label
+    for (cc, nn) in rng.sample(written, min(2, len(written))) if written else []:
+        for lab in rng.sample(["", "EOL", "error", "x1"], 2):
+            ops.append(("load", cc, nn, lab, rng.choice(["readonly", "readonly", "loadOperator"])))
     return ops
 
 
@@ -389,7 +499,7 @@ def section_histories(ctx):
     hists = FIXED + [gen_history(ctx.rng) for _ in range(n)]
     reqs, impl, cases = [], [], []
     with common.scratch_dir():
-        o, r = load_small()
+        o, r = load_small({"db": True})      # with the database interface: loadState routes need it
         for hi, ops in enumerate(hists):
             real = RealHistory(o, r, hi)
             real.trace = []
@@ -842,6 +952,228 @@ def section_absent(ctx, only=None):
     ctx.traces += len(jobs)
 
 
+# --------------------------------------------------------------------------- (1c) histories by LOCATION for several objects
+def section_locations(ctx):
+    """Five assemblies (one block each) on the smallest reactor; between writes assemblies are swapped, taken out of the core
+    (their location stays EMPTY for some steps) and put back elsewhere. Location-based histories are requested for SEVERAL
+    objects at once in orders that differ from the stored layout order (live child order after swaps, reversed, rotated,
+    hand-picked) through Database.getHistoriesByLocation / getHistoryByLocation and DatabaseInterface.getHistories / getHistory
+    (byLocation=True), and identity-based histories for the same lists. Oracle: every LOCATION gets, per step, the value of
+    whatever object sat there at that step (no entry if it was empty); every OBJECT its own values, also after it moved."""
+    import copy
+    from armi.bookkeeping.db.layout import Layout
+    rng = ctx.rng
+    reqs, impl, cases = [], [], []
+    nh = ctx.pick(6, 80)
+    with common.scratch_dir():
+        # ---- excluded point (known finding unless repaired): NONE of the requested locations is occupied at a requested step
+        with common.quiet():
+            o, r = load_small({"db": True})
+            a2 = copy.deepcopy(r.core[0]); a2.makeUnique()
+            r.core.add(a2, r.core.spatialGrid[1, 0, 0])
+        a1 = r.core[0]
+        dbi = o.getInterface("database"); dbi.initDB(fName="locx.h5"); db = dbi.database
+        for n_, inside in ((0, True), (1, False), (2, True)):
+            with common.quiet():
+                if not inside:
+                    r.core.removeAssembly(a2, discharge=False)
+                elif n_:
+                    r.core.add(a2, r.core.spatialGrid[1, 0, 0])
+                r.p.cycle, r.p.timeNode = 0, n_
+                a1.p.kInf, a2.p.kInf = float(10 * n_ + 1), float(10 * n_ + 2)
+                db.writeToDB(r)
+        xcase = {"location_history": "one object whose location (1,0,0) is empty at step (0,1)", "steps": [[0, 0], [0, 1], [0, 2]]}
+        try:
+            with common.quiet():
+                h = db.getHistoryByLocation(a2, ["kInf"], [(0, 0), (0, 1), (0, 2)])
+            got = {(int(k[0]), int(k[1])): int(v) for k, v in h["kInf"].items()}
+            if got != {(0, 0): 2, (0, 2): 22}:
+                ctx.fail("history-by-location-value", "every location gets, per step, the value of whatever object sat there (nothing if "
+                         "it was empty)", xcase, observed=sorted(got.items()), expected=[((0, 0), 2), ((0, 2), 22)])
+        except IndexError as e:
+            ctx.fail("location-history-all-requested-locations-empty-raises", "a history over written steps is answered (a location that "
+                     "was empty at a step has no entry there)", xcase, observed=repr(e)[:200], expected={(0, 0): 2, (0, 2): 22})
+        db.close(True)
+        os.remove("locx.h5")
+        ctx.case(("location-history-excluded-point",))
+        for hi in range(nh):
+            with common.quiet():
+                o, r = load_small({"db": True})
+                spots = [(1, 0, 0), (0, 1, 0), (-1, 1, 0), (-1, 0, 0), (0, -1, 0), (1, -1, 0)]
+                for loc in spots[:4]:
+                    a = copy.deepcopy(r.core[0]); a.makeUnique()
+                    r.core.add(a, r.core.spatialGrid[loc])
+            dbi = o.getInterface("database")
+            dbi.initDB(fName=f"loc{hi}.h5")
+            db = dbi.database
+            P = {"HexAssembly": [(1, "kInf"), (2, "maxPercentBu")], "HexBlock": [(1, "power"), (2, "flux")]}
+            locid = {}
+
+            def lid(t):
+                t = tuple(int(x) for x in t)
+                return locid.setdefault(t, len(locid) + 1)
+
+            def objs_of(t):
+                return list(r.core) if t == "HexAssembly" else [b for a in r.core for b in a]
+            stream = {t: [("reset", "ok", {"op": "reset"}), ("preset [[1,0],[2,0]]", "ok", {"op": "preset"})] for t in P}
+            trace, shadow, written, out = [], {}, [], []
+            case0 = {"location_history": [ctx.seed, hi]}
+
+            def emit(t, req, ans, extra=None):
+                stream[t].append((req, ans, dict(case0, type=t, trace=list(trace), **(extra or {}))))
+
+            T = rng.randint(3, 5)
+            step = (rng.randint(0, 1), 0)
+            for ti in range(T):
+                # ---- moves between writes
+                for _ in range(rng.randint(0, 2) if ti else 0):
+                    x = rng.random()
+                    inside = list(r.core)
+                    with common.quiet():
+                        if x < 0.55 and len(inside) >= 2:
+                            a1, a2 = rng.sample(inside, 2)
+                            l1, l2 = tuple(a1.spatialLocator.indices), tuple(a2.spatialLocator.indices)
+                            r.core.removeAssembly(a1, discharge=False); r.core.removeAssembly(a2, discharge=False)
+                            r.core.add(a1, r.core.spatialGrid[l2]); r.core.add(a2, r.core.spatialGrid[l1])
+                            trace.append(["swap", int(a1.p.serialNum), int(a2.p.serialNum)])
+                            ctx.count("locations: two assemblies swapped between writes")
+                        elif x < 0.8 and len(inside) >= 3:
+                            a1 = rng.choice(inside)
+                            out.append(a1)
+                            r.core.removeAssembly(a1, discharge=False)
+                            trace.append(["take-out", int(a1.p.serialNum)])
+                            ctx.count("locations: an assembly taken out (its location stays empty)")
+                        elif out:
+                            a1 = out.pop(rng.randrange(len(out)))
+                            free = [l for l in [(0, 0, 0)] + spots if not any(tuple(a.spatialLocator.indices) == l for a in r.core)]
+                            l_ = rng.choice(free)
+                            r.core.add(a1, r.core.spatialGrid[l_])
+                            trace.append(["put-back", int(a1.p.serialNum), list(l_)])
+                            ctx.count("locations: an assembly put back at another free location")
+                r.p.cycle, r.p.timeNode = step
+                for t in P:
+                    emit(t, f"ptime {step[0]} {step[1]}", "ok")
+                    for x in objs_of(t):
+                        for pid, name in P[t]:
+                            v = int(x.p.serialNum) * 100 + ti * 10 + pid
+                            x.p[name] = float(v)
+                            emit(t, f"passign {int(x.p.serialNum)} {pid} {v}", "ok")
+                with common.quiet():
+                    db.writeToDB(r)
+                trace.append(["write", step[0], step[1]])
+                lay = Layout((db.versionMajor, db.versionMinor), h5group=db.h5db[gname(*step)])
+                shadow[step] = {}
+                for t in P:
+                    rows = sorted((int(lay.indexInData[i]), int(lay.serialNum[i]), tuple(int(z) for z in lay.location[i]))
+                                  for i in range(len(lay.type)) if lay.type[i] == t)
+                    emit(t, f"pwritel {common.intlist([s_ for _, s_, _ in rows])} {common.intlist([lid(l) for _, _, l in rows])}", "ok")
+                    shadow[step][t] = {tuple(int(z) for z in x.spatialLocator.getCompleteIndices()):
+                                       (int(x.p.serialNum), {pid: int(x.p[name]) for pid, name in P[t]}) for x in objs_of(t)}
+                    if [s_ for _, s_, _ in rows] != [int(x.p.serialNum) for x in objs_of(t)]:
+                        ctx.count("locations: snapshot whose stored row order differs from the live child order")
+                written.append(step)
+                step = (step[0], step[1] + 1) if rng.random() < 0.6 else (step[0] + 1, 0)
+                if ti == 0:
+                    continue
+                # ---- queries
+                for _ in range(rng.randint(2, 4)):
+                    t = rng.choice(list(P))
+                    live = objs_of(t)
+                    how = rng.choice(["live order", "reversed", "rotated", "hand-picked", "hand-picked", "single"])
+                    if how == "live order":
+                        comps = list(live)
+                    elif how == "reversed":
+                        comps = list(reversed(live))
+                    elif how == "rotated":
+                        k = rng.randint(1, len(live) - 1); comps = live[k:] + live[:k]
+                    elif how == "single":
+                        comps = [rng.choice(live)]
+                    else:
+                        comps = rng.sample(live, rng.randint(2, len(live)))
+                    plist = rng.sample(P[t], rng.randint(1, 2))
+                    names, ids = [n_ for _, n_ in plist], common.intlist([i_ for i_, _ in plist])
+                    steps = None if rng.random() < 0.25 else rng.sample(written, rng.randint(1, len(written)))
+                    route = rng.choice(["db-loc", "db-loc", "dbi-loc", "db-id"])
+                    now = (int(r.p.cycle), int(r.p.timeNode))
+                    sarg = "_" if steps is None else "[" + ",".join(f"[{a},{b}]" for a, b in steps) + "]"
+                    qcase = {"query": [route, how, t, [int(x.p.serialNum) for x in comps], names, None if steps is None else [list(z) for z in steps]]}
+                    try:
+                        with common.quiet():
+                            if route == "db-loc":
+                                hs = (db.getHistoriesByLocation(comps, names, steps) if len(comps) > 1 or rng.random() < 0.5
+                                      else {comps[0]: db.getHistoryByLocation(comps[0], names, steps)})
+                            elif route == "dbi-loc":
+                                hs = (dbi.getHistories(comps, names, None if steps is None else list(steps), byLocation=True)
+                                      if len(comps) > 1 or rng.random() < 0.5
+                                      else {comps[0]: dbi.getHistory(comps[0], names, None if steps is None else list(steps), byLocation=True)})
+                            else:
+                                hs = db.getHistories(comps, names, steps)
+                    except Exception as e:  # noqa
+                        asked_ = sorted(written) if steps is None else steps
+                        locs_ = [tuple(int(z) for z in x.spatialLocator.getCompleteIndices()) for x in comps]
+                        all_empty = route != "db-id" and any(not any(L_ in shadow[st_][t] for L_ in locs_) for st_ in asked_ if st_ in shadow)
+                        ctx.fail("location-history-all-requested-locations-empty-raises" if all_empty else
+                                 "location-history-raises" if route != "db-id" else "history-request-raises",
+                                 "a history over written steps is answered (a location that was empty at a step has no entry there)",
+                                 dict(case0, trace=list(trace), **qcase), observed=repr(e)[:300])
+                        continue
+                    ctx.count(f"locations: query {route}, {how}" + (", full history" if steps is None else ""))
+                    asked = sorted(written) if steps is None else steps
+
+                    def fmt(h):
+                        return ";".join(f"{pid}:[" + ",".join(f"({int(k[0])},{int(k[1])}):{int(v)}" for k, v in h[name].items()) + "]"
+                                        for pid, name in plist if name in h)
+                    if route == "db-loc" and len(comps) > 1:
+                        emit(t, f"plocs {common.intlist([lid(x.spatialLocator.getCompleteIndices()) for x in comps])} {ids} {sarg}",
+                             " | ".join(f"{lid(x.spatialLocator.getCompleteIndices())}={fmt(hs[x])}" for x in comps), qcase)
+                    for x in comps:
+                        L = tuple(int(z) for z in x.spatialLocator.getCompleteIndices())
+                        sn = int(x.p.serialNum)
+                        if route == "db-loc" and len(comps) == 1:
+                            emit(t, f"ploc {lid(L)} {ids} {sarg}", fmt(hs[x]), qcase)
+                        elif route == "dbi-loc":
+                            emit(t, f"plocdbi {lid(L)} {sn} {ids} {sarg}", fmt(hs[x]), qcase)
+                        elif route == "db-id":
+                            emit(t, f"pdb {sn} {ids} " + (sarg if steps is not None else "[" + ",".join(f"[{a},{b}]" for a, b in sorted(written)) + "]"),
+                                 fmt(hs[x]), qcase)
+                        for pid, name in plist:
+                            for st_ in asked:
+                                if route == "dbi-loc" and st_ == now:
+                                    continue        # the current step carries the live value of the object passed
+                                if route == "db-id":
+                                    occ = [v for (s2, v) in shadow[st_][t].values() if s2 == sn]
+                                    want = occ[0][pid] if occ else None
+                                else:
+                                    occ = shadow[st_][t].get(L)
+                                    want = None if occ is None else occ[1][pid]
+                                got = hs[x].get(name, {}).get(st_)
+                                ctx.count("locations: (object, step, parameter) judged" + (" - location empty at that step" if want is None else ""))
+                                if (got is None) != (want is None) or (got is not None and int(got) != want):
+                                    by = "location" if route != "db-id" else "identity"
+                                    ctx.fail("history-by-location-value" if by == "location" else "history-matched-by-identity-after-move",
+                                             "a location-based history gives every location, per step, the value of whatever object sat there "
+                                             "at that step (nothing if it was empty); an identity-based one every object its own values"
+                                             , dict(case0, trace=list(trace), serial=sn, location=list(L), step=list(st_), parameter=name,
+                                                    occupant=None if route == "db-id" or occ is None else occ[0], **qcase),
+                                             observed=None if got is None else int(got), expected=want)
+                                    break
+                            if route == "dbi-loc" and (steps is None or now in steps):
+                                got = hs[x].get(name, {}).get(now)
+                                if got is None or int(got) != int(x.p[name]):
+                                    ctx.fail("history-by-location-current-step", "through the interface the current step carries the live value",
+                                             dict(case0, trace=list(trace), serial=sn, **qcase), observed=got, expected=int(x.p[name]))
+            db.close(True)
+            os.remove(f"loc{hi}.h5")
+            for t in P:          # one model session per object type
+                for (rq, an, cs_) in stream[t]:
+                    reqs.append(rq); impl.append(an); cases.append(cs_)
+            ctx.case(("location-history", hi, T, len(trace)), sample={"trace": trace[:12]} if hi == 0 else None)
+    model = lean_run("SnapStore", reqs)
+    ctx.compare("SnapStore.dbHistoryByLoc/locHistories/dbiHistoryByLoc vs Database.getHistoriesByLocation & co. on HDF5", cases, model, impl)
+    ctx.evaluations += len(reqs)
+    ctx.traces += nh
+
+
 # --------------------------------------------------------------------------- (2) objects that move
 def section_moves(ctx):
     """Histories of blocks and assemblies matched by identity after two assemblies swapped places."""
@@ -1158,6 +1490,17 @@ def real_crash(shape, pos, failAt, kind="exception"):
             with common.quiet():
                 r2 = d2.load(c, n, statePointName="error", cs=o.cs, bp=r.blueprints, allowMissing=True)
             extra["error_state"] = (int(r2.p.cycle), int(r2.p.timeNode), int(r2.core.p.keff))
+        eol = [nm for nm in extra["names"] if nm.endswith("EOL")]
+        if not crashed and eol:
+            # the end-of-life snapshot shares its (cycle, node) with the last node's plain snapshot: each loads as ITS OWN state
+            c, n = int(eol[0][1:3]), int(eol[0][4:6])
+            with common.quiet():
+                ra = d2.load(c, n, statePointName="EOL", cs=o.cs, bp=r.blueprints, allowMissing=True)
+                rb = d2.load(c, n, cs=o.cs, bp=r.blueprints, allowMissing=True)
+            extra["eol_loaded"] = (int(ra.core.p.keff), int(rb.core.p.keff))
+    if not crashed and eol:
+        with h5py.File(fn, "r") as h:
+            extra["eol_stored"] = (int(h[eol[0]]["Core/keff"][()][0]), int(h[eol[0][:6]]["Core/keff"][()][0]))
     os.remove(fn)
     return f"work=T success={tf(succ)} open=F {summ}", f.calls, crashed, extra
 
@@ -1287,6 +1630,9 @@ def oracle_crash(ctx, case, shape, pos, K, ref, summ, calls, crashed, extra):
             writes.append(gname(rc, rn, "EOL"))
             finalised = True
     if K is None:
+        if extra.get("eol_loaded") != extra.get("eol_stored"):
+            ctx.fail("load-labelled-snapshot-returns-another-snapshot", "the end-of-life snapshot and the last node's snapshot each load as "
+                     "their own state", case, observed=extra.get("eol_loaded"), expected=extra.get("eol_stored"))
         if crashed or not summ.startswith("work=T success=T"):
             ctx.fail("complete-run-marked-successful", "a completed run is marked successful", case, observed=summ[:300])
         if extra.get("names") != sorted(writes):
@@ -1489,6 +1835,7 @@ def run(ctx):
     common.import_armi()
     section_absent(ctx)        # first: needs parameters nothing in this process has assigned yet
     section_histories(ctx)
+    section_locations(ctx)
     section_moves(ctx)
     section_serials(ctx)
     section_crashes(ctx)
@@ -1529,7 +1876,7 @@ def replay(ctx, payload):
             section_absent(sub, only=case["absent_history"])
     elif isinstance(case, dict) and "ops" in case:
         with common.scratch_dir():
-            o, r = load_small()
+            o, r = load_small({"db": True})
             real = RealHistory(o, r, 0)
             real.trace = []
             for op in case["ops"]:
